@@ -177,7 +177,9 @@ func (e *Explore) Run(ctx context.Context, con int) error {
 							time.Sleep(e.retryInterval)
 							e.targetsLock.Lock()
 							defer e.targetsLock.Unlock()
-							if e.targets[hash] != nil {
+							// retry only if this very target is still tracked, a target that was removed and
+							// added again is a new one and is explored on its own
+							if e.targets[hash] == tar {
 								e.needExplore <- tar
 							}
 						}()
